@@ -191,6 +191,8 @@ func main() {
 			r.Extra["benign_patches_silent"] = cr.BenignSilent
 			r.Extra["benign_patches_skipped_not_applicable"] = cr.BenignSkipped
 			r.Extra["benign_patches_alarming"] = cr.Noisy
+			sort.Strings(cr.KnownNoisy)
+			r.Extra["benign_patches_known_open_false_alarms"] = cr.KnownNoisy
 			if len(cr.Weak) > 0 {
 				fmt.Printf("CHECKER-WEAK %s: seeded changes no longer detected: %s\n", id, strings.Join(cr.Weak, "; "))
 			}
